@@ -16,11 +16,35 @@ async def realise(ctx, sq, n, scen, rnd, slack=1.0):
     first = {'v': None}
     arrived = asyncio.Event()
 
+    primed = bool(par.get('primed'))
+    prime = {'v': None, 'etag': None}
+
     async def responder(q, oc):
         _ver[0] += 1
         v = _ver[0]
         rid = q.head.get('X-Verif-Id')
         status = 200
+        if primed and prime['v'] is None:
+            # the priming fetch: a complete cacheable response that has to be revalidated on every use
+            prime['v'], prime['etag'] = v, '"c18p-%d"' % v
+            ev.append({'e': 'FetchStart', 'v': v, 'id': rid, 'len': L, 'status': 200})
+            await oc.send(peers.response_head(200, 'OK', [('Content-Length', str(L)), ('Cache-Control', 'no-cache'), ('Date', peers.http_date()), ('ETag', prime['etag']),
+                                                          ('X-Verif-Version', str(v)), ('X-Verif-Origin', '1')]) + peers.body_bytes(v, L))
+            ev.append({'e': 'FetchHead', 'v': v, 'shareable': True, 'reval': True})
+            ev.append({'e': 'FetchEnd', 'v': v, 'fin': 'complete'})
+            return False
+        if primed and q.head.get('If-None-Match') == prime['etag']:
+            # the revalidation fetch: held like the writer's fetch of the other classes, answered 304
+            ev.append({'e': 'FetchStart', 'v': v, 'id': rid, 'len': 0, 'status': 304})
+            is_first = first['v'] is None
+            if is_first:
+                first['v'] = v
+                arrived.set()
+                await go['head'].wait()
+            await oc.send(peers.response_head(304, 'Not Modified', [('Cache-Control', 'no-cache'), ('Date', peers.http_date()), ('ETag', prime['etag']), ('X-Verif-Origin', '1')]))
+            ev.append({'e': 'FetchHead', 'v': v, 'shareable': True, 'reval': True})
+            ev.append({'e': 'FetchEnd', 'v': v, 'fin': 'complete'})
+            return False
         ev.append({'e': 'FetchStart', 'v': v, 'id': rid, 'len': L, 'status': status})
         is_first = first['v'] is None
         if is_first:
@@ -76,6 +100,11 @@ async def realise(ctx, sq, n, scen, rnd, slack=1.0):
             intact, _ = peers.project_body(r.body, hv)
             bv = hv if intact else -2
         results.append({'e': 'CResp', 'hv': hv, 'bv': bv, 'status': r.status or 0, 'blen': len(r.body), 'intact': bool(intact), 'complete': bool(r.complete), 'cid': cid})
+    if primed:
+        await client('p', par['w1'])
+        if prime['v'] is None:
+            await o.stop()
+            return None
     tasks = [asyncio.ensure_future(client('w', par['w1']))]
     try:
         await asyncio.wait_for(arrived.wait(), 8.0)
@@ -105,7 +134,7 @@ async def realise(ctx, sq, n, scen, rnd, slack=1.0):
     await o.stop()
     ev += [{k: r[k] for k in r if k != 'cid'} for r in results]
     ev.append({'e': 'Done'})
-    return {'ev': ev, 'par': par, 'len': L, 'fetches': sum(1 for e in ev if e['e'] == 'FetchStart'), 'pred_extra': scen['extra']}
+    return {'ev': ev, 'par': par, 'len': L, 'fetches': sum(1 for e in ev if e['e'] == 'FetchStart') - (1 if primed else 0), 'pred_extra': scen['extra']}
 
 
 def fill(ev):
@@ -131,8 +160,11 @@ def run(ctx):
             rnd.shuffle(part)
             strata = {}
             for sc in part:
-                strata.setdefault((sc['par']['outcome'], sc['par']['fresh']), []).append(sc)
-            quota = {('ok', 'fresh'): 30, ('ok', 'nocache'): 16, ('ok', 'mustreval0'): 16, ('ok', 'expired'): 16, ('abort', 'fresh'): 10, ('unshareable', 'fresh'): 10}
+                strata.setdefault((sc['par']['outcome'], sc['par']['fresh'] + ('-primed' if sc['par'].get('primed') else '')), []).append(sc)
+            quota = {('ok', 'nocache-primed'): 24, ('ok', 'fresh'): 30, ('ok', 'nocache'): 16, ('ok', 'mustreval0'): 16, ('ok', 'expired'): 16, ('abort', 'fresh'): 10, ('unshareable', 'fresh'): 10}
+            # a 304 has no body phase: only followers sent before its head meet the open revalidation fetch
+            if ('ok', 'nocache-primed') in strata:
+                strata[('ok', 'nocache-primed')].sort(key=lambda sc: -sum(1 for f in ('f1', 'f2', 'f3') if sc['par'][f] == 'beforeHead'))
             part = [sc for k, lst in sorted(strata.items()) for sc in lst[:quota.get(k, 8)]]
         sq = squidctl.Squid(ctx, tree, name='c18-%d' % workers, clock=False, workers=workers if workers > 1 else 0, cache_mem='64 MB',
                             conf_extra='collapsed_forwarding on\n' + ('memory_cache_shared on\n' if workers > 1 else '') + 'maximum_object_size_in_memory 1 MB\nread_timeout 10 seconds\n')
@@ -183,10 +215,13 @@ def run(ctx):
         if o['pred_extra'] == 0 and o['fetches'] != 1 and len(ctx.drift) < 5:
             ctx.drift.append('predicted a single fetch, saw %d: %s' % (o['fetches'], json.dumps(o['par'])))
     ctx.cov['impl_distinct'] = len({json.dumps([o['par'], o['len']], sort_keys=True) for o in out})
+    ctx.cov['revalidation_bursts'] = sum(1 for o in out if o['par'].get('primed'))
+    ctx.cov['followers_sent_during_an_open_304_fetch'] = sum(1 for o in out if o['par'].get('primed') for f in ('f1', 'f2', 'f3') if o['par'][f] == 'beforeHead')
+    ctx.cov['revalidation_bursts_with_single_304_fetch'] = sum(1 for o in out if o['par'].get('primed') and o['fetches'] == 1 and any(e['e'] == 'FetchStart' and e['status'] == 304 for e in o['ev']))
     ctx.cov['bursts_with_single_fetch'] = sum(1 for o in out if o['fetches'] == 1)
     ctx.cov['collapsed_complete_bodies'] = sum(1 for o in out for e in o['ev'] if e['e'] == 'CResp' and e['complete'] and e['hv'] >= 0)
     for o in out[:2]:
         ctx.sample({'par': o['par'], 'len': o['len'], 'events': o['ev']})
-    ctx.cov['rule'] = ('classes = CollapseScen.tla (arrival point of 2-3 followers relative to the writer\'s fetch x outcome ok/abort/unshareable x freshness of the shared response (fresh / no-cache+ETag / max-age=0 must-revalidate / Expires=Date) x worker assignment, 1 and 2 workers); '
+    ctx.cov['rule'] = ('classes = CollapseScen.tla (arrival point of 2-3 followers relative to the writer\'s fetch x outcome ok/abort/unshareable x freshness of the shared response (fresh / no-cache+ETag / max-age=0 must-revalidate / Expires=Date) x worker assignment, 1 and 2 workers x burst on an already stored response that must be revalidated (the fetch of the writer is a conditional request answered 304)); '
                        'the driver holds the origin\'s reply at head / mid-body / end so that followers arrive exactly there; histories validated by TLC against Collapse.tla; a rejected burst is re-run alone with wide timing margins before it is reported.')
     ctx.assumptions += ['per-worker listening ports (squid.conf conditionals) pin clients to workers']
